@@ -37,6 +37,7 @@ META = {
         "failed) or, for a no-result outcome, the function and all post_execute hooks have ended. When processing "
         "of an ackable message finishes, #ack calls == 1. distinct_nontrivial = distinct terminal per-message logs."
         " Fault-overlap family (mc/fault_overlap.py): message X suffers one fault out of {pre_execute/post_execute/post_save/on_error hook, sync or async ack, result backend} x {RuntimeError, CancelledError, TimeoutError}, backend failing once, body raise/CancelledError/timeout/no-result, malformed/unknown message, broker stream error, while the healthy message Y has suspension points before, inside and after its function and the stop request may arrive at any point; for all three acknowledge types; Y, and X for the outcomes the property quantifies over, is acknowledged exactly once and never early; an X outside them (raising hook, CancelledError from the backend, junk) may end un-acknowledged but never with an early or second ack; also with wait_tasks_timeout elapsing while Y (async / sync) is inside its function."
+        " Repeated faults (mc/fault_overlap.py::repeats): the same fault k times in a row (k in 3..6; thorough up to 10) on one worker, then healthy messages - a counter, pool, budget or throttle inside the worker must not change what happens at the k-th occurrence. For all three acknowledge types."
     ),
     "assumptions": [
         "asyncio semantics as implemented by BaseEventLoop (only clock/selector replaced)",
@@ -131,6 +132,12 @@ def fault_family(tier: str) -> List[Dict[str, Any]]:
         for y in (None, {"flavour": "sync"}):
             for f in (("body", "raise"), ("save", "raise")):
                 out.append(fo.scenario(f, ack_type=at, y=y, a=3, w=0.3))
+    # the same fault 3..6 times in a row on one worker, then a healthy message
+    for at in ats:
+        for sc in fo.repeats(tier, ks=(3, 4, 5, 6) if tier == "quick" else (3, 4, 5, 6, 8, 9, 10), ack_type=at):
+            k, d = sc["fault"]
+            sc["relax_x"] = k in ("hook", "junk") or (k == "save" and d == "cancel")
+            out.append(sc)
     if tier == "thorough":
         for sc in fo.family(tier, ack_types=ats, a=2, orders=(False,), ys=({"flavour": "sync"},)):
             k, d = sc["fault"]
